@@ -276,3 +276,84 @@ pub async fn c06_server_case(plan: &Value) -> Outcome {
     out.summary = json!({"tier": "B", "family": fam, "accept": accept, "reply_bytes": reply.len(), "dials": d.len()});
     out
 }
+
+// ---------------------------------------------------------------------------------------------
+// local applications
+
+pub const SOCKS_ADDR: &str = "127.0.0.1:1080";
+pub const HTTP_ADDR: &str = "127.0.0.1:8080";
+
+pub fn start_socks5(client: Arc<Client>) {
+    anytls_simnet::spawn(async move {
+        let _ = anytls_rs::client::start_socks5_server(SOCKS_ADDR, client).await;
+    });
+}
+
+pub fn start_http(client: Arc<Client>) {
+    anytls_simnet::spawn(async move {
+        let _ = anytls_rs::client::start_http_proxy_server(HTTP_ADDR, client).await;
+    });
+}
+
+/// SOCKS5 address bytes for a host string
+pub fn socks_addr_bytes(host: &str, port: u16) -> Vec<u8> {
+    let mut v = Vec::new();
+    if let Ok(ip) = host.parse::<std::net::Ipv4Addr>() {
+        v.push(1);
+        v.extend_from_slice(&ip.octets());
+    } else if let Ok(ip) = host.parse::<std::net::Ipv6Addr>() {
+        v.push(4);
+        v.extend_from_slice(&ip.octets());
+    } else {
+        v.push(3);
+        v.push(host.len() as u8);
+        v.extend_from_slice(host.as_bytes());
+    }
+    v.extend_from_slice(&port.to_be_bytes());
+    v
+}
+
+/// A well-behaved SOCKS5 CONNECT; returns the connected stream and the reply code.
+pub async fn socks5_connect(host: &str, port: u16) -> Result<(TcpStream, u8), String> {
+    let mut s = TcpStream::connect(SOCKS_ADDR).await.map_err(|e| format!("connect to the SOCKS5 listener: {}", e))?;
+    s.write_all(&[5, 1, 0]).await.map_err(|e| e.to_string())?;
+    let mut r = [0u8; 2];
+    timeout(Duration::from_secs(60), s.read_exact(&mut r)).await.map_err(|_| "no method reply within 60 s".to_string())?.map_err(|e| e.to_string())?;
+    if r != [5, 0] {
+        return Err(format!("method reply {:?}", r));
+    }
+    let mut req = vec![5u8, 1, 0];
+    req.extend(socks_addr_bytes(host, port));
+    s.write_all(&req).await.map_err(|e| e.to_string())?;
+    let mut rep = [0u8; 10];
+    timeout(Duration::from_secs(120), s.read_exact(&mut rep)).await.map_err(|_| "no SOCKS5 reply within 120 s".to_string())?.map_err(|e| e.to_string())?;
+    Ok((s, rep[1]))
+}
+
+/// HTTP CONNECT through the proxy; returns the stream and the status line
+pub async fn http_connect(authority: &str) -> Result<(TcpStream, String), String> {
+    let mut s = TcpStream::connect(HTTP_ADDR).await.map_err(|e| format!("connect to the HTTP listener: {}", e))?;
+    s.write_all(format!("CONNECT {} HTTP/1.1\r\nHost: {}\r\n\r\n", authority, authority).as_bytes()).await.map_err(|e| e.to_string())?;
+    let mut acc = Vec::new();
+    let mut b = [0u8; 1];
+    loop {
+        match timeout(Duration::from_secs(120), s.read(&mut b)).await {
+            Ok(Ok(1)) => acc.push(b[0]),
+            _ => return Err(format!("no complete HTTP response ({} bytes)", acc.len())),
+        }
+        if acc.ends_with(b"\r\n\r\n") {
+            break;
+        }
+    }
+    let line = String::from_utf8_lossy(&acc).lines().next().unwrap_or("").to_string();
+    Ok((s, line))
+}
+
+/// echo round trip through an established tunnel
+pub async fn ping(s: &mut TcpStream, payload: &[u8]) -> bool {
+    if s.write_all(payload).await.is_err() {
+        return false;
+    }
+    let mut b = vec![0u8; payload.len()];
+    matches!(timeout(Duration::from_secs(120), s.read_exact(&mut b)).await, Ok(Ok(_))) && b == payload
+}
